@@ -1,6 +1,7 @@
 import LalModel.Proof.GroupFlv
 import LalModel.Proof.GopRing
 import LalModel.Proof.GroupRecord
+import LalModel.Proof.TsGopRing
 /-
   C16 — When an input ends every output is finalised once and the name starts clean.
   Property theorems on the group model (`Group.step … .delPub` = Group.delIn, tied to a real logic.Group
@@ -108,5 +109,21 @@ theorem recording_finalised_once (cfg : Cfg) (evs more : List Ev) (r : Nat)
         intro _; exact hlt2 (Nat.lt_of_lt_of_le hlt (by
           have := foldl_nextRecord_mono ([.delPub] ++ more) (run cfg evs) hI
           simpa [run, List.foldl_append] using this)))
+
+/-- HTTP-TS: a later publisher starts clean. Whatever the history before the input ended (`Clear()`), the GOP cache of
+    the HTTP-TS consumers afterwards holds exactly what the history SINCE then puts there: nothing of the earlier input
+    can be replayed to a consumer of the later one. -/
+theorem ts_cache_clean_after_input_ends (gopNum cap : Nat) (before after : List GopRing.TsEv) :
+    ∃ r, GopRing.tsRun (GopRing.Ring.new gopNum cap) (before ++ [.clear] ++ after) = .ok r ∧
+      GopRing.tsGops r = after.foldl (GopRing.tsSpec gopNum cap) [] := by
+  obtain ⟨r, e, _, g⟩ := GopRing.tsRun_refines gopNum cap (before ++ [.clear] ++ after) (GopRing.Ring.new gopNum cap)
+    (GopRing.Ring.new_wf gopNum cap) rfl rfl
+  refine ⟨r, e, ?_⟩
+  rw [g, GopRing.ts_new_empty, List.foldl_append, List.foldl_append]
+  rfl
+
+/-- non-vacuity: a GOP cached before the input ended is gone, the later input's GOP is there -/
+example : (GopRing.tsRun (GopRing.Ring.new 2 0) [.feed [1] true, .feed [2] false, .clear, .feed [9] true]).toOption.map GopRing.tsGops
+    = some [[[9]]] := by decide
 
 end Lal.Props.C16
